@@ -246,9 +246,10 @@ def build(repo):
         u.pub_fields(st)
     u.contract((S, 'register'), '''        requires request.source is Some, ep_ok::<Endpoint>(), wf(*old(self))
         ensures
-            // only this resource's entry changes (created with sequence 0 if it did not exist)
+            // only this resource's entry changes
             final(self).resources@ == old(self).resources@.insert(request.path, final(self).resources@[request.path]),
-            final(self).resources@[request.path].sequence == seq_of(*old(self), request.path),
+            // C15: only notification rounds move a sequence number (where a new resource starts counting is not part of the property)
+            old(self).resources@.contains_key(request.path) ==> final(self).resources@[request.path].sequence == old(self).resources@[request.path].sequence, // @props C15
             registered(obs_of(*old(self), request.path), final(self).resources@[request.path].observers@, request.source->0, request.message.token@),
             final(self).unacknowledged_limit == old(self).unacknowledged_limit,
             wf(*final(self))''')
@@ -299,8 +300,14 @@ def build(repo):
         ensures
             !old(self).resources@.contains_key(request.path) ==> final(self).resources@ == old(self).resources@,
             old(self).resources@.contains_key(request.path) ==> final(self).resources@ == old(self).resources@.insert(request.path, final(self).resources@[request.path])
-                && final(self).resources@[request.path].sequence == old(self).resources@[request.path].sequence
-                && deregistered(old(self).resources@[request.path].observers@, final(self).resources@[request.path].observers@, request.source->0, request.message.token@),
+                && final(self).resources@[request.path].sequence == old(self).resources@[request.path].sequence,
+            // C14: exactly the matching observer goes, the others stay as listed
+            old(self).resources@.contains_key(request.path) ==>
+                deregistered(old(self).resources@[request.path].observers@, final(self).resources@[request.path].observers@, request.source->0, request.message.token@), // @props C14
+            // C15: whoever stays keeps its count and pending message id
+            old(self).resources@.contains_key(request.path) ==>
+                (forall|i: int| 0 <= i < final(self).resources@[request.path].observers@.len() ==>
+                    old(self).resources@[request.path].observers@.contains(#[trigger] final(self).resources@[request.path].observers@[i])), // @props C15
             final(self).unacknowledged_limit == old(self).unacknowledged_limit,
             wf(*final(self))''')
     u.closure((S, 'deregister'), r'\|x\|', 'x: &Observer<Endpoint>', 'b: bool', 'ensures b == matches(*x, *observer_endpoint, token@)')
@@ -315,7 +322,8 @@ def build(repo):
             }''')
     u.at_block_end((S, 'deregister'), r'if let Some\(position\) = position', '''                proof {
                     let new_s = resource.observers@;
-                    assert(new_s =~= old_s.remove(position as int));
+                    assert(new_s =~= old_s.remove(position as int)); // @props C14
+                    assert forall|i: int| 0 <= i < new_s.len() implies old_s.contains(#[trigger] new_s[i]) by { let a = if i < position { i } else { i + 1 }; assert(new_s[i] == old_s[a]); }
                     assert(matches(old_s[position as int], ep, tok));
                     assert(deregistered(old_s, new_s, ep, tok));
                     assert(counts_ok(new_s)) by { assert forall|i: int| 0 <= i < new_s.len() implies (#[trigger] new_s[i]).unacknowledged_messages <= 255 by { let a = if i < position { i } else { i + 1 }; assert(new_s[i] == old_s[a]); } }
